@@ -596,7 +596,7 @@ pub fn history_preemptions(p: &Program, hist: &crate::accept::History) -> Option
                 let inside = more
                     && matches!(
                         p.threads[t][s.th[t].pc].k,
-                        K::NWait { .. } | K::NWaitUntil { .. } | K::ParkUntil { .. } | K::CvWaitUntil { .. } | K::Wait { .. } | K::Yield | K::Await { .. }
+                        K::NWait { .. } | K::NWaitUntil { .. } | K::ParkUntil { .. } | K::CvWaitUntil { .. } | K::Wait { .. } | K::Yield | K::Await { .. } | K::AwaitSpun { .. }
                     );
                 if more && !inside {
                     let enabled = s.succ(p, t, mode).iter().any(|(n, _)| !n.via_spurious);
@@ -1222,7 +1222,7 @@ fn eval_c19(job: &Job) -> JobResult {
     // programs with non-SeqCst accesses have outcomes the SC machine does not produce: their
     // restricted runs are compared with the unrestricted loom run only
     let weak = p.threads.iter().flatten().any(|o| match o.k {
-        K::Load { mo, .. } | K::Store { mo, .. } | K::Swap { mo, .. } | K::FetchAdd { mo, .. } | K::Await { mo, .. } | K::NWaitUntil { mo, .. } => mo != MO::Sc,
+        K::Load { mo, .. } | K::Store { mo, .. } | K::Swap { mo, .. } | K::FetchAdd { mo, .. } | K::Await { mo, .. } | K::AwaitSpun { mo, .. } | K::NWaitUntil { mo, .. } => mo != MO::Sc,
         K::Cas { s, f, .. } => s != MO::Sc || f != MO::Sc,
         _ => false,
     });
